@@ -460,6 +460,7 @@ func run(r *core.Run) {
 	r.Bound("later_operations", laterOps)
 	r.Bound("later_operations_up_to_depth", laterDepth+1)
 	limited := map[string]int{}
+	minLimited := map[string]int{}
 	for _, o := range ops {
 		m := o.maxLenQ
 		if r.Thorough() {
@@ -468,8 +469,12 @@ func run(r *core.Run) {
 		if m > 0 {
 			limited[o.src] = m
 		}
+		if o.minLen > 0 {
+			minLimited[o.src] = o.minLen
+		}
 	}
 	r.Bound("depth_limited_operations(max history length incl. the operation)", limited)
+	r.Bound("operations_applied_only_from_history_length", minLimited)
 	var coreNames []string
 	for _, o := range ops {
 		if o.core {
@@ -495,6 +500,7 @@ func run(r *core.Run) {
 	r.Assume("UNSPECIFIED Z1: use-package of a package that exports a name it does not bind. The statement says which bindings are copied, not what happens to such a name; the model predicts the pinned behaviour (copy in sorted export order up to the unbound name, then an error) and a departure is tolerated (branch not expanded, counted as UNSPECIFIED-ZONE-DEPARTURE) if every exported name is, in the using package, either as before or as in the source, and nothing else changed")
 	r.Assume("UNSPECIFIED Z2: whether an attempt to bind true/false/:k is an error or is silently ineffective; asserted: the result never shows the rebinding, no table gains a name, the current package stays")
 	r.Assume("after any call returns or fails the package that was current before it is current again; ignore-errors answers nil for an absorbed error, handler-bind with the catch-all clause answers its handler's value (docs of both operators)")
+	r.Assume("an import (use-package, or the creation of a package over the language package) copies the values current at that moment, however they came to be current: set, set! at top level or inside a function of the exporting package, qualified set, defun/defmacro redefinition")
 	r.Assume("in-package inside a FUNCTION body, set! on a qualified name, rebinding names of the language package, and exporting names of the language package are outside the alphabet (the statement does not speak about them)")
 	r.Assume("canonical state = current package + for every model package its export list and every non-base binding (integers by value; functions by kind, defining package, parameter list, body text and captured lexical bindings). Function identity (which bindings share one function object) is checked against the model in every state but is not part of the key: two functions with equal descriptions are observationally equal for every operation of the alphabet")
 
